@@ -2,13 +2,14 @@
 (* Batch validation of logged cases (V direction): one TLC behaviour walks   *)
 (* the NDJSON file given in env CASES; every case is judged by the spec and  *)
 (* the verdict printed.  POSTCONDITION checks that every case was judged.    *)
-EXTENDS Naturals, Sequences, TLC, Json, IOUtils, JBinary
+EXTENDS Naturals, Sequences, TLC, Json, IOUtils, JBinary, JFile
 
 CasesIn == ndJsonDeserialize(IOEnv.CASES)
 NCases == Len(CasesIn)
 
 Judge(c) ==
   CASE c.op = "sl_rt" -> Judge_sl_rt(c)
+    [] c.op = "file_rt" -> Judge_file_rt(c)
     [] OTHER -> << "H.op=fail" >>
 
 VARIABLE i
